@@ -242,6 +242,7 @@ def check_C03(tier, seed, t0):
 FIXED_C04 = [
     "cls=sym;ty=d;n=16;nev=4;ncv=15;seed=624719;hist=N,I,C0;c04=1;meas=0;mconv=0;fam=presc;spec=evenint;args0=4:500:-10:7",
     "cls=sym;ty=d;n=19;nev=2;ncv=6;seed=448915;hist=N,I,C0;c04=1;meas=0;mconv=0;fam=presc;spec=evenint;args0=4:500:-10:3",
+    "cls=genrs;ty=d;n=15;nev=2;ncv=5;seed=202022;hist=N,I,C0;c04=1;meas=0;mconv=0;fam=presc;spec=cint;ncp=3;sigma=-3.5;args0=2:500:-10:4",
 ]
 
 
